@@ -6,7 +6,7 @@ prop="$1"; tier="${2:-${VERIF_TIER:-quick}}"
 export GOFLAGS=-mod=mod GOPROXY=off
 unset GOSUMDB GOTOOLCHAIN
 W=$(mktemp -d "${TMPDIR:-/tmp}/vcheck.XXXXXX") || exit 2
-trap 'rm -rf "$W"' EXIT
+trap '[ -n "$VCHECK_KEEP" ] || rm -rf "$W"' EXIT
 (cd /repo && go build -o "$W/moq" .) || { echo "HARNESS ERROR: /repo does not build"; exit 2; }
 (cd /verif/mc && go build -o "$W/vcheck" ./cmd/vcheck) || { echo "HARNESS ERROR: checker does not build against /repo"; exit 2; }
 mkdir -p "$W/work"
